@@ -118,6 +118,8 @@ pub fn alphabet(ver: Ver, role: Role) -> Vec<T> {
         a.push(T::DisconnectExpiry);
         a.push(T::SubId(0));
         a.push(T::Pub { qos: 0, id: 0, len: 1, topic: 3, alias: 1 });
+        // empty topic with an alias above the Topic Alias Maximum (32): never bound, out of any table's range
+        a.push(T::Pub { qos: 0, id: 0, len: 1, topic: 3, alias: 40 });
     }
     let _ = role;
     a
